@@ -433,7 +433,7 @@ pub fn json_diff(a: &Value, b: &Value, path: &str, band: &dyn Fn(&str) -> f64) -
             // numbers stored as text (misc indicators): compare as numbers at their printed precision
             match (x.parse::<f64>(), y.parse::<f64>()) {
                 (Ok(p), Ok(q)) => {
-                    if (p - q).abs() <= 1.1e-3 + band(path) {
+                    if (p - q).abs() <= 1.1e-3 + band(path) || (p.is_nan() && q.is_nan()) {
                         None
                     } else {
                         Some(format!("{path}: {x} vs {y}"))
